@@ -27,6 +27,7 @@ import (
 	"strconv"
 	"strings"
 	"sync"
+	"sync/atomic"
 	"syscall"
 	"time"
 
@@ -968,6 +969,193 @@ func runConc(cr concRun) (sig, what string, obs concObs) {
 var concKinds = []string{"start||start", "start||stop", "stop||stop", "restart||start"}
 
 // ---------------------------------------------------------------------------------------------
+// histories: sequences of API calls on ONE object, issued back to back (no pause unless "settle"), with the world's other
+// input — the loggers — possibly becoming invalid in between.  Oracle: (a) whenever the object has been quiescent for a
+// moment and reports IsOn() == false, nothing of the command's trees is alive (a tree the object no longer admits to can
+// never be stopped through it); (b) after the final Stop()/Cancel(): nothing alive, IsOn() false, nothing unreaped.
+
+type historyRun struct {
+	Ops []string `json:"history"` // start | stop | restart | cancel | execute | closelog | settle
+}
+
+type flakyLoggers struct{ closed atomic.Bool }
+
+func (l *flakyLoggers) Close() error                 { l.closed.Store(true); return nil }
+func (l *flakyLoggers) SetLogSource(string) error    { return nil }
+func (l *flakyLoggers) SetLoggerSource(string) error { return nil }
+func (l *flakyLoggers) Log(...interface{})           {}
+func (l *flakyLoggers) LogError(...interface{})      {}
+func (l *flakyLoggers) Check() error {
+	if l.closed.Load() {
+		return fmt.Errorf("loggers are closed")
+	}
+	return nil
+}
+
+func runHistory(hr historyRun) (sig, what string, trace []string) {
+	seqMu.Lock()
+	caseSeq++
+	tag := fmt.Sprintf("%d", caseSeq)
+	seqMu.Unlock()
+	defer killCase(tag)
+	dir := filepath.Join(tmpDir, "hist-"+tag)
+	if !inTmp(dir) || os.Mkdir(dir, 0o755) != nil {
+		return
+	}
+	defer removeInTmp(dir)
+	// the first run of the command (the one Execute() waits for, when the history begins with it) ends at once;
+	// every other run is the usual long-lived tree
+	first := "true"
+	if len(hr.Ops) > 0 && hr.Ops[0] == "execute" {
+		first = `if mkdir "$VERIF_C05_DIR/first" 2>/dev/null; then exit 0; fi`
+	}
+	env := []string{
+		"VERIF_C05_RUN=" + runID,
+		"VERIF_C05_CASE=" + runID + "-" + tag,
+		"VERIF_C05_SCRIPT=" + script(fan(leaf(), leaf())),
+		"VERIF_C05_WRAP=",
+		"VERIF_C05_DIR=" + dir,
+	}
+	lg := &flakyLoggers{}
+	ctx, cancel := context.WithCancel(context.Background())
+	defer cancel()
+	p := new(subprocess.Subprocess)
+	if err := p.SetupAsWithEnvironment(ctx, lg, env, "", "", "", commandUtils.Me(), "sh", "-c", first+`; eval "$VERIF_C05_SCRIPT"; n0`, "c05-"+runID+"-"+tag); err != nil {
+		return
+	}
+	defer p.Cancel()
+	seen := map[int]bool{}
+	alive := func() int {
+		ps := procsOf(tag, time.Now())
+		for _, q := range ps {
+			if q.PPid == os.Getpid() {
+				seen[q.Pid] = true
+			}
+		}
+		return len(ps)
+	}
+	fail := func(k, w string) {
+		if sig == "" {
+			sig, what = k, w+" — history "+strings.Join(hr.Ops, ";")
+		}
+	}
+	// quiescent: IsOn() false, stable for 100 ms, while processes of the command are still there after the settle time
+	consistent := func(at string) {
+		t0 := time.Now()
+		for {
+			if p.IsOn() {
+				return // the object admits to a running process: Stop()/Cancel() can still reach it
+			}
+			n := alive()
+			if n == 0 {
+				return
+			}
+			if time.Since(t0) > settleBound {
+				if !p.IsOn() {
+					trace = append(trace, fmt.Sprintf("%s: IsOn=false with %d processes alive", at, n))
+					fail("untracked-tree", fmt.Sprintf("after %s the object reports IsOn() == false while %d processes of its command are alive (%v later): nothing can stop them through the object", at, n, settleBound))
+				}
+				return
+			}
+			time.Sleep(10 * time.Millisecond)
+		}
+	}
+	call := func(name string, f func() error) {
+		done := make(chan error, 1)
+		go func() { done <- f() }()
+		select {
+		case err := <-done:
+			trace = append(trace, fmt.Sprintf("%s -> err=%v IsOn=%v", name, err != nil, p.IsOn()))
+		case <-time.After(returnBound):
+			trace = append(trace, name+" -> did not return")
+			fail("no-return:history", name+" did not return within the bound")
+		}
+	}
+	for i, op := range hr.Ops {
+		if sig != "" {
+			break
+		}
+		switch op {
+		case "start":
+			call("Start", p.Start)
+		case "stop":
+			call("Stop", p.Stop)
+		case "restart":
+			call("Restart", p.Restart)
+		case "execute":
+			call("Execute", p.Execute)
+		case "cancel":
+			p.Cancel()
+			trace = append(trace, "Cancel")
+		case "closelog":
+			_ = lg.Close()
+			trace = append(trace, "loggers closed")
+		case "settle":
+			time.Sleep(150 * time.Millisecond)
+			consistent(fmt.Sprintf("step %d", i))
+		}
+	}
+	if sig != "" {
+		return
+	}
+	// the history ends with Stop() or Cancel(): nothing may be left
+	t0 := time.Now()
+	n := 0
+	for {
+		n = alive()
+		if (n == 0 && !p.IsOn()) || time.Since(t0) > settleBound {
+			break
+		}
+		time.Sleep(10 * time.Millisecond)
+	}
+	trace = append(trace, fmt.Sprintf("end: %d processes alive, IsOn=%v", n, p.IsOn()))
+	if n > 0 {
+		fail("survivor:history", fmt.Sprintf("%d processes of the command are alive %v after the final stop request returned", n, settleBound))
+	} else if p.IsOn() {
+		fail("ison-true:history", "IsOn() is true after the final stop request")
+	}
+	time.Sleep(30 * time.Millisecond)
+	for pid := range seen {
+		if pp, _, _, st, ok := readStat(pid); ok && st == 'Z' && pp == os.Getpid() {
+			fail("unreaped:history", fmt.Sprintf("instance %d has been killed but never waited for", pid))
+		}
+	}
+	return
+}
+
+func rep(ops []string, k int) []string {
+	var out []string
+	for i := 0; i < k; i++ {
+		out = append(out, ops...)
+	}
+	return out
+}
+
+// the deterministic histories (run several times each: what happens between two calls is the scheduler's)
+func histories() []historyRun {
+	cat := func(l ...[]string) []string {
+		var out []string
+		for _, x := range l {
+			out = append(out, x...)
+		}
+		return out
+	}
+	return []historyRun{
+		{Ops: cat([]string{"start"}, rep([]string{"stop", "start"}, 4), []string{"settle", "stop"})}, // Stop;Start loops without pause
+		{Ops: cat([]string{"start"}, rep([]string{"stop", "start", "settle"}, 3), []string{"stop"})}, // ... with the consistency oracle after each round
+		{Ops: cat([]string{"start"}, rep([]string{"restart"}, 4), []string{"settle", "stop"})},       // Restart loops
+		{Ops: []string{"execute", "start", "settle", "stop"}},                                        // Execute();Start()
+		{Ops: []string{"execute", "start", "stop", "start", "settle", "cancel"}},                     //
+		{Ops: []string{"start", "closelog", "stop"}},                                                 // the loggers become invalid between start and stop
+		{Ops: []string{"start", "closelog", "restart", "settle", "stop"}},                            //
+		{Ops: []string{"start", "closelog", "cancel"}},                                               //
+		{Ops: []string{"start", "execute", "settle", "stop"}},                                        // a refused Execute() on a started subprocess
+		{Ops: []string{"start", "cancel", "start", "settle", "stop"}},                                // Cancel();Start()
+		{Ops: []string{"start", "stop", "stop", "start", "start", "settle", "cancel"}},               // idempotence mixes
+	}
+}
+
+// ---------------------------------------------------------------------------------------------
 // oracle (independent of the Coq model)
 
 func shapeClass(t node) string {
@@ -1193,6 +1381,25 @@ func main() {
 		r.Finish()
 	}
 
+	var hrp historyRun
+	if _, ok := r.ReplayObject(&hrp); ok && len(hrp.Ops) > 0 {
+		bad := map[string]int{}
+		whats := map[string]string{}
+		for a := 0; a < 6; a++ {
+			r.Eval()
+			if sig, wh, _ := runHistory(hrp); sig != "" {
+				bad[sig]++
+				whats[sig] = wh
+			}
+		}
+		for sg, c := range bad {
+			if c >= 2 { // seen, and seen again
+				r.Fail(sg, whats[sg], hrp)
+			}
+		}
+		finish()
+		return
+	}
 	var cr concRun
 	if _, ok := r.ReplayObject(&cr); ok && cr.Kind != "" {
 		counts, whats := map[string]int{}, map[string]string{}
@@ -1402,7 +1609,67 @@ func main() {
 		cwg.Add(1)
 		go func(i int) { defer cwg.Done(); cOut[i] = concAttempts(concKinds[i], r.N(5, 15)) }(i)
 	}
+	// histories: each several times; an anomaly is reported when it is seen and then seen again in 2 further runs of the
+	// same history out of up to 6 (what happens between two back-to-back calls is the scheduler's)
+	hs := histories()
+	type histOut struct {
+		sig, wh string
+		trace   []string
+		n, bad  int
+	}
+	hOut := make([]histOut, len(hs))
+	var hwg sync.WaitGroup
+	hsem := make(chan struct{}, 4)
+	for i := range hs {
+		hwg.Add(1)
+		go func(i int) {
+			defer hwg.Done()
+			hsem <- struct{}{}
+			defer func() { <-hsem }()
+			n := r.N(4, 12)
+			counts, whats := map[string]int{}, map[string]string{}
+			var lastTrace []string
+			for a := 0; a < n; a++ {
+				sig, wh, tr := runHistory(hs[i])
+				hOut[i].n++
+				if sig != "" {
+					counts[sig]++
+					whats[sig] = wh
+					lastTrace = tr
+					hOut[i].bad++
+					if counts[sig] == 1 && n-a-1 < 5 {
+						n = a + 1 + 5 // confirmation runs
+					}
+					if counts[sig] >= 3 {
+						hOut[i].sig, hOut[i].wh = sig, fmt.Sprintf("%s (in %d of %d runs)", wh, counts[sig], hOut[i].n)
+						break
+					}
+				} else if lastTrace == nil {
+					hOut[i].trace = tr
+				}
+			}
+			if lastTrace != nil {
+				hOut[i].trace = lastTrace
+			}
+		}(i)
+	}
 	outs := runAll(scs, 8)
+	hwg.Wait()
+	for i, o := range hOut {
+		r.Evals(o.n)
+		r.CountN("history", o.n)
+		r.Distinct("history:" + strings.Join(hs[i].Ops, ";"))
+		r.Sample(map[string]any{"history": hs[i].Ops, "trace": o.trace})
+		if o.sig != "" {
+			r.Fail(o.sig, o.wh, hs[i])
+		} else if o.bad > 0 {
+			r.Count("history-isolated-anomaly")
+			r.Note(fmt.Sprintf("history %s: %d of %d runs showed an anomaly that was not confirmed", strings.Join(hs[i].Ops, ";"), o.bad, o.n))
+		}
+		if probe {
+			fmt.Fprintf(os.Stderr, "PROBE history %v -> %v [%s] bad=%d/%d\n", hs[i].Ops, o.trace, o.sig, o.bad, o.n)
+		}
+	}
 	cwg.Wait()
 	for i, o := range cOut {
 		r.Evals(o.n)
